@@ -40,6 +40,9 @@ CLAIMS = {
  "C11": dict(technique="TLA+ RegistrarP.tla (stack-machine Exec vs positional Flatten) model-checked by TLC over all registration programs; programs executed on a real Flame (spare-capacity slices) and probed; handler-id traces validated by TLC (RegistrarTrace.tla)", ref="4 C11",
    note="Bounded: programs <= 4-5 instructions, depth 2 exhaustively; random to 15 instructions, depth 4. Static paths only.",
    text="TLC checks Exec = Flatten for every well-bracketed program; each program runs on a real Flame and every (method, path) is requested: the ids of the handlers that ran, the route text and found/not-found are judged by TLC against the flat expansion."),
+ "C05": dict(technique="TLA+ Concurrent.tla (N request processes over shared read-only state + once-guarded caches) model-checked by TLC over all interleavings; TLC schedules forced on the real Flame through blocking gates; responses validated by TLC (ConcurrentTrace.tla); free-running rounds observed by the Go race detector", ref="4 C05",
+   note="N <= 3 in the model; gates at three points per request (before routing, middleware, route handler). The no-data-race clause is observed by the Go race detector on the driven executions only (sound for those, not exhaustive over schedules). Trusted: TLC, Go race detector.",
+   text="TLC checks serial equivalence, isolation and read-only-after-setup over every interleaving of the model; every distinct gate schedule is replayed on the real code and each response is judged by TLC against the serial outcome; race-detector rounds with fresh instances (so lazy caches are rendered concurrently) and 8-64 goroutines cover the data-race clause as far as a dynamic detector can."),
  "C13": dict(
    technique="TLA+ spec RW.tla model-checked by TLC (layer I |= layer P, all op sequences to the bound); TLC-generated behaviours replayed on NewResponseWriter; recorded traces validated by TLC against RWTrace.tla",
    text="TLC checks exhaustively (all operation sequences up to depth 4 quick / 6 thorough, 3 methods, short writes) that the implementation-shaped model satisfies the five clauses of C13; every explored behaviour is executed on the real NewResponseWriter over a spy and the recorded step-by-step observations (Status/Size/Written + everything that reached the underlying writer) are validated by TLC against the property layer, as are random histories of up to 50 operations. Right level: the object is a small state machine, so bounded-exhaustive model checking plus trace conformance covers every transition combination.",
